@@ -520,6 +520,19 @@ def execute(plan, run):
                     r = stk2.list() == [b'\xff']
                 except LIB_ERRORS:
                     r = False
+            elif plan['idx'] % 8 == 6 and not step.get('suffix'):
+                # the deprecated single-script entry point, documented as maintained:
+                # witness and lock as one script (its DeprecationWarning is expected)
+                import warnings
+                run.probe('deprecated_run_auth_script')
+                F.flags['ts_threshold'] = step['thr']
+                try:
+                    with warnings.catch_warnings():
+                        warnings.simplefilter('ignore', DeprecationWarning)
+                        r = F.run_auth_script(w.bytes + code_of(lockf), cache_in, **lim)
+                except BaseException as e:      # noqa
+                    run.aux_auth_raised += 1
+                    r = 'raised_' + type(e).__name__
             else:
                 F.flags['ts_threshold'] = step['thr']
                 try:
